@@ -526,10 +526,13 @@ class Handler(_GC, AbstractHandler):
         release_stream: Callable[[], Any],
     ) -> None:
         self.__gc_step__()
-        self._tasks[stream] = self.loop.create_task(request_handler(
+        task = self._tasks[stream] = self.loop.create_task(request_handler(
             self.mapping, stream, headers, self.codec,
             self.status_details_codec, self.dispatch, release_stream,
         ))
+        # a task cancelled before its first step never runs the coroutine and
+        # its ``finally`` clause, so make sure the stream gets released anyway
+        task.add_done_callback(lambda _: release_stream())
 
     def cancel(self, stream: 'protocol.Stream') -> None:
         task = self._tasks.pop(stream)
